@@ -166,6 +166,8 @@ def finish(ctx, out=sys.stdout):
 
 
 def write_evidence(ctx, total, disch, nknown, nviol):
+    if os.environ.get('H2VERIF_NOEVIDENCE'):
+        return
     prop = ctx.prop
     distinct = len({o.key(prop) for o in ctx.obligations if o.nontrivial})
     obs = ctx.obligations
